@@ -138,6 +138,15 @@ impl Property for C11 {
             let c = constraint(3, LE_ZERO, Some(f_linear(linear(vec![(ids[0], 1.0)], -1.0))));
             inst.removed_constraints.push(removed(c, "relaxed", Default::default()));
         }
+        // a removed constraint is not part of the exported problem: it may well use an integer or
+        // continuous variable that the objective does not mention
+        if rng.chance(1, 5) {
+            let other = 535_353;
+            inst.decision_variables.push(dvar(other, *rng.pick(&[KIND_INTEGER, KIND_CONTINUOUS]), Some((0.0, 9.0))));
+            let c = constraint(7, if rng.bool() { EQ_ZERO } else { LE_ZERO }, Some(f_linear(linear(vec![(other, 2.0), (ids[0], 1.0)], -1.0))));
+            inst.removed_constraints.push(removed(c, "relaxed earlier", Default::default()));
+            mon.facet("removed-constraint-over-a-non-binary-variable");
+        }
         // refusal scenarios
         let scenario = rng.below(10);
         let mut refuse_pubo: Option<&'static str> = None;
